@@ -1,7 +1,7 @@
 """C01 Value lanes: subscribers see an ordered, gap-tolerant, never-stale view."""
 from mirlib import AnchorMissing, describe_operand, describe_place, describe_rvalue, dom_guards, guards, _suffix_match
 from rules import uplinks
-from rules.common import aggregates, callers_by_name, calls_on_field, field_writes, owner_def, where
+from rules.common import ty_of, aggregates, callers_by_name, calls_on_field, field_writes, owner_def, where
 
 META = {
     "explanation": (
@@ -18,6 +18,12 @@ AG = "swimos_agent"
 RT = "swimos_runtime"
 VS = "stores::value::ValueStore"
 IN = "stores::value::Inner"
+
+
+def is_item_writers(b, op):
+    """the map from item id to the item's writer token, recognised by its type (its name is a local's and may change)"""
+    t = ty_of(b, op)
+    return "HashMap<" in t and "io::ItemWriter" in t
 
 
 def run(ctx):
@@ -80,7 +86,7 @@ def run(ctx):
         if len(cl) != 1:
             raise AnchorMissing("run_agent: the dirty_items.retain closure was not found")
         b = ctx.saw(cl[0])
-        rm = [c for c in b.calls if c.name == "remove" and describe_operand(b, c.args[0]).endswith("item_writers")]
+        rm = [c for c in b.calls if c.name == "remove" and is_item_writers(b, c.args[0])]
         we = [c for c in b.calls if c.via_name == "write_event"]
         if len(rm) != 1 or len(we) != 1:
             raise AnchorMissing("retain closure: item_writers.remove / write_event")
@@ -109,7 +115,7 @@ def run(ctx):
             r.check(flag == want, "retain/do_write-flag/%s" % (res[0] if res else "?"), c.loc(), "do_write(tx, %s) for %s" % (flag, res), "do_write(tx, %s) for %s" % (flag, res))
             ps = [x for x in b.calls if x.name == "push" and describe_operand(b, x.args[0]).endswith("pending_writes") and b.dominates(c.block, x.block)]
             r.check(bool(ps), "retain/do_write-scheduled/%s" % (res[0] if res else "?"), c.loc(), "the write future is pushed to pending_writes")
-        back = {c.block for c in b.calls if c.name == "insert" and describe_operand(b, c.args[0]).endswith("item_writers")}
+        back = {c.block for c in b.calls if c.name == "insert" and is_item_writers(b, c.args[0])}
         ok, wit = b.must_pass([ve["Some"]], {c.block for c in dw} | back)
         r.check(ok, "retain/removed-writer-not-dropped", rm[0].loc(), "a writer taken out of item_writers always goes into do_write or back into item_writers",
                 "on a path (write_event -> NoData / None) the ItemWriter removed from item_writers is dropped: the lane's output channel closes and the lane can never publish again (%s)" % wit)
@@ -119,7 +125,7 @@ def run(ctx):
         if len(ra) != 1:
             raise AnchorMissing("run_agent coroutine body")
         b = ctx.saw(ra[0])
-        ins = [c for c in b.calls if c.name == "insert" and describe_operand(b, c.args[0]).endswith("item_writers") and any(l == "WriteComplete" for d, l, _ in dom_guards(b, c.block))]
+        ins = [c for c in b.calls if c.name == "insert" and is_item_writers(b, c.args[0]) and any(l == "WriteComplete" for d, l, _ in dom_guards(b, c.block))]
         r.check(len(ins) == 1, "WriteComplete/reinsert-site", where(b), "one item_writers.insert in the WriteComplete arm", "found %d" % len(ins))
         if ins:
             c = ins[0]
